@@ -64,6 +64,24 @@ VERUS_UNITS = {
             ('ensures r is Ok <==> self.tracker.value.currently_reacting,', 'ensures r is Ok,', 'DespawnEvent::get'),
         ],
     },
+    'cache': {
+        'template': 'cache.rs.tpl',
+        'owners': [
+            (r'ReactCache::register_(insertion|mutation|removal|any_entity_event|resource_mutation|broadcast)_reactor$', ['C01', 'C07']),
+            (r'ReactCache::register_despawn_reactor$', ['C01', 'C07', 'C08']),
+            (r'ReactCache::track_removals$', ['C08']),
+            (r'ReactCache::schedule_resource_mutation_reaction$', ['C01']),
+            (r'ReactCache::schedule_broadcast_reaction$', ['C01', 'C05']),
+            (r'ComponentReactors::(default|is_empty)$', ['C01', 'C06']),
+            (r'ReactorHandle::sys_command$', ['C01']),
+        ],
+        'negctl': [
+            ('else { old(commands).log().push(Queued::SpawnData { entity: d, readers: tab.len() as usize })',
+             'else { old(commands).log().push(Queued::SpawnData { entity: d, readers: (tab.len() + 1) as usize })', 'ReactCache::schedule_broadcast_reaction'),
+            ('ensures tab_mut(*final(self), type_id_spec::<C>()) == tab_mut(*old(self), type_id_spec::<C>()).push(handle),',
+             'ensures tab_ins(*final(self), type_id_spec::<C>()) == tab_ins(*old(self), type_id_spec::<C>()).push(handle),', 'ReactCache::register_mutation_reactor'),
+        ],
+    },
     'lemmas': {
         'template': 'lemmas.rs.tpl',
         'owners': [
